@@ -148,6 +148,9 @@ func firstLine(s string) string {
 
 func (e *Explorer) report(x *Exec) {
 	key := x.Verdict + ": " + firstLine(x.Detail)
+	if i := strings.Index(key, " | "); i >= 0 {
+		key = key[:i] // text after " | " is case-specific context, not part of the finding's identity
+	}
 	if e.KeyFn != nil {
 		key = e.KeyFn(x)
 	}
